@@ -31,11 +31,12 @@ variable {P : ParserModel}
 /-! ### cache_inv -/
 
 /-- An entry made by a download: there is a response, delivered completely in the chunks `rx`
-    (end-of-response seen), whose streaming parse returned `Ok`, requested at `u` by a call for the
-    module cached at `p`; the entry is that body followed by the URL note. -/
+    (end-of-response seen), whose streaming parse returned `Ok` and whose body ends in a line feed,
+    requested at `u` by a call for the module cached at `p`; the entry is that body followed by the
+    URL note. -/
 def GoodEntry (P : ParserModel) (reqs : List Req) (p : Path) (n : Node) : Prop :=
-  ∃ rx u t, P.stream rx = some (bodyOf rx, t) ∧ n = .file (bodyOf rx ++ trailer u) ∧
-    ∃ r ∈ reqs, r.path = p ∧ u ∈ r.urls
+  ∃ rx u t, P.stream rx = some (bodyOf rx, t) ∧ EndsNl (bodyOf rx) ∧
+    n = .file (bodyOf rx ++ trailer u) ∧ ∃ r ∈ reqs, r.path = p ∧ u ∈ r.urls
 
 /-- every entry is an initial one or a `GoodEntry` -/
 def CacheInv (P : ParserModel) (init : Cache) (w : World P) : Prop :=
@@ -64,7 +65,7 @@ private theorem World.step_inv (hl : ParserLaws P) (init : Cache) (w : World P) 
       show _ ∨ GoodEntry P (List.map Prod.fst (w.tasks.set i (req, (CacheFs.step w.cache req ph e).2))) p n
       rw [hreqs]
       simp only [] at hn
-      rcases step_cache hl w.cache req ph e hph with hc | ⟨u, rest, temp, ps, rx, io, t, _, _, hu, hs, _, hcm⟩
+      rcases step_cache hl w.cache req ph e hph with hc | ⟨u, rest, temp, nl, ps, rx, io, t, _, _, hu, hs, hends, _, hcm⟩
       · rw [hc] at hn; exact h.2 p n hn
       · rw [hcm] at hn
         by_cases hp : p = req.path
@@ -73,7 +74,7 @@ private theorem World.step_inv (hl : ParserLaws P) (init : Cache) (w : World P) 
           · rw [h1] at hn; exact h.2 _ _ hn
           · rw [h1] at hn
             cases hn
-            exact Or.inr ⟨rx, u, t, hs, rfl, req, hreq, rfl, hu⟩
+            exact Or.inr ⟨rx, u, t, hs, hends, rfl, req, hreq, rfl, hu⟩
           · rw [h1] at hn; cases hn
         · rw [(commit_spec w.cache req.path u (bodyOf rx) io).1 p hp] at hn
           exact h.2 p n hn
@@ -125,9 +126,9 @@ theorem cache_inv (hl : ParserLaws P) (c0 : Cache) (reqs : List Req) (evs : List
     chunk independence. -/
 theorem goodEntry_parses (hl : ParserLaws P) {reqs : List Req} {p : Path} {n : Node}
     (h : GoodEntry P reqs p n) :
-    ∃ body u, n = .file (body ++ trailer u) ∧ P.parseOk body = true := by
-  obtain ⟨rx, u, t, hs, hn, _⟩ := h
-  exact ⟨bodyOf rx, u, hn, by simp [ParserModel.parseOk, hl.chunk_independent rx _ t hs]⟩
+    ∃ body u, n = .file (body ++ trailer u) ∧ P.parseOk body = true ∧ EndsNl body := by
+  obtain ⟨rx, u, t, hs, hends, hn, _⟩ := h
+  exact ⟨bodyOf rx, u, hn, by simp [ParserModel.parseOk, hl.chunk_independent rx _ t hs], hends⟩
 
 /-! ### no_stray_temp -/
 
@@ -147,7 +148,7 @@ private theorem runTask_finished (c : Cache) (req : Req) {ph : Phase P} (h : ph.
   | dropped => exact runTask_dropped c req es
   | start => simp [Phase.finished] at h
   | awaitStatus _ _ => simp [Phase.finished] at h
-  | streaming _ _ _ _ _ => simp [Phase.finished] at h
+  | streaming _ _ _ _ _ _ => simp [Phase.finished] at h
 
 private theorem step_drop_finished (c : Cache) (req : Req) (ph : Phase P) :
     (step c req ph .drop).2.finished ∧ (step c req ph .drop).1 = c := by
@@ -188,14 +189,14 @@ theorem no_stray_temp_after_drop (c : Cache) (req : Req) (es fs : List Ev) :
     (this is what C10's `callback_prefix` gives) — it is never anything else than part of the file -/
 theorem temp_is_prefix (hl : ParserLaws P) (c : Cache) (req : Req) (es : List Ev) (t : Bytes)
     (h : (runTask (P := P) c req .start es).2.temp = some t) :
-    ∃ u rest temp ps rx, (runTask (P := P) c req .start es).2 = .streaming u rest temp ps rx ∧
+    ∃ u rest temp nl ps rx, (runTask (P := P) c req .start es).2 = .streaming u rest temp nl ps rx ∧
       ∃ more, t ++ more = bodyOf rx := by
   have hinv := runTask_inv (P := P) c req .start es trivial
   cases hph : (runTask (P := P) c req .start es).2 with
-  | streaming u rest temp ps rx =>
+  | streaming u rest temp nl ps rx =>
     rw [hph] at hinv h
-    obtain ⟨_, cb, hrun, htemp⟩ := hinv
-    refine ⟨u, rest, temp, ps, rx, rfl, ?_⟩
+    obtain ⟨_, cb, hrun, htemp, _⟩ := hinv
+    refine ⟨u, rest, temp, nl, ps, rx, rfl, ?_⟩
     have : t = cb := htemp t h
     subst this
     exact (hl.callback_prefix rx ps t hrun).1
@@ -220,7 +221,7 @@ theorem failure_leaves_nothing (hl : ParserLaws P) (c : Cache) (req : Req) (ph :
   | nil => rfl
   | cons e es ih =>
     simp only [runTask] at hfail ⊢
-    rcases step_cache hl c req ph e hph with hc | ⟨u, rest, temp, ps, rx, io, t, _, _, _, _, hd, _⟩
+    rcases step_cache hl c req ph e hph with hc | ⟨u, rest, temp, nl, ps, rx, io, t, _, _, _, _, _, hd, _⟩
     · have := ih (step c req ph e).1 (step c req ph e).2 (CacheFs.step_inv c req ph e hph) hfail
       rw [this, hc]
     · exfalso
@@ -231,13 +232,13 @@ theorem failure_leaves_nothing (hl : ParserLaws P) (c : Cache) (req : Req) (ph :
 theorem failure_kinds (hl : ParserLaws P) (c : Cache) (req : Req) (es : List Ev) :
     let r := runTask (P := P) c req .start es
     (r.2 = .done .notFound ∨ r.2 = .dropped ∨ r.2 = .start ∨
-      (∃ u rest, r.2 = .awaitStatus u rest) ∨ (∃ u rest temp ps rx, r.2 = .streaming u rest temp ps rx) ∨
+      (∃ u rest, r.2 = .awaitStatus u rest) ∨ (∃ u rest temp nl ps rx, r.2 = .streaming u rest temp nl ps rx) ∨
       (∃ b, r.2 = .done (.localFile b))) → r.1 = c := by
   intro r h
   apply failure_leaves_nothing hl c req .start trivial es
   intro rx u hd
   have hd' : r.2 = .done (.downloaded rx u) := hd
-  rcases h with h | h | h | ⟨_, _, h⟩ | ⟨_, _, _, _, _, h⟩ | ⟨_, h⟩ <;> rw [h] at hd' <;> simp at hd'
+  rcases h with h | h | h | ⟨_, _, h⟩ | ⟨_, _, _, _, _, _, h⟩ | ⟨_, h⟩ <;> rw [h] at hd' <;> simp at hd'
 
 /-- conversely: a `downloaded` result is only produced from a complete response that parsed `Ok` -/
 theorem downloaded_is_complete (hl : ParserLaws P) (c : Cache) (req : Req) (ph : Phase P)
@@ -332,16 +333,12 @@ def Result.sym (P : ParserModel) : Result → Option P.Sym
     download returned, URL included. Uses `info_url_trailer` (for URLs as `Url::to_string` writes
     them) and `chunk_independent`.
 
-    Hypothesis `hnl` (the downloaded body ends in a line feed) cannot be dropped FOR THE CODE AS IT
-    IS: the real parser returns `Ok` for a body whose unterminated last line exceeds the 160 KiB
-    window (over-long-line recovery), `commit_cache_file` appends the note directly behind that
-    line, and a later read discards the note together with the line — the cached lookup then has
-    `url = None`. The engine exhibits this on the implementation (class
-    `cached-url-differs-from-original`, known finding `C16-overlong-unterminated-tail`). For every
-    other body that parses, "ends in a line feed" holds (an unterminated short last line is a
-    parse error). -/
+    That the committed body ends in a line feed — which `info_url_trailer` needs — is established
+    by the commit step itself (`ends_with_newline`, /repo 4002240). Before that repair the real
+    parser's `Ok` for a body with an over-long unterminated last line led to an entry whose note
+    was glued to that line and lost on re-reading; this check found it (corpus case `+L170000`). -/
 theorem cached_equals_original (hl : ParserLaws P) (c : Cache) (req : Req) (es : List Ev)
-    (rx : List Bytes) (u : Url) (e : Bytes) (hu : UrlClean u) (hnl : EndsNl (bodyOf rx))
+    (rx : List Bytes) (u : Url) (e : Bytes) (hu : UrlClean u)
     (hfree : c req.path = none)
     (hrun : (runTask (P := P) c req .start es).2 = .done (.downloaded rx u))
     (hentry : (runTask (P := P) c req .start es).1 req.path = some (.file e)) :
@@ -356,7 +353,7 @@ theorem cached_equals_original (hl : ParserLaws P) (c : Cache) (req : Req) (es :
   have key : ∀ (es : List Ev) (c0 : Cache) (ph : Phase P), PhaseInv req ph →
       (runTask c0 req ph es).2 = .done (.downloaded rx u) →
       (runTask c0 req ph es).1 req.path = c0 req.path ∨
-      (runTask c0 req ph es).1 req.path = some (.file (bodyOf rx ++ trailer u)) ∨
+      ((runTask c0 req ph es).1 req.path = some (.file (bodyOf rx ++ trailer u)) ∧ EndsNl (bodyOf rx)) ∨
       (runTask c0 req ph es).1 req.path = none := by
     intro es
     induction es with
@@ -364,7 +361,7 @@ theorem cached_equals_original (hl : ParserLaws P) (c : Cache) (req : Req) (es :
     | cons ev es ih =>
       intro c0 ph hph hd
       simp only [runTask] at hd ⊢
-      rcases step_cache hl c0 req ph ev hph with hc | ⟨u', rest, temp, ps, rx', io, t, _, _, _, _, hd', hcm⟩
+      rcases step_cache hl c0 req ph ev hph with hc | ⟨u', rest, temp, nl, ps, rx', io, t, _, _, _, _, hends, hd', hcm⟩
       · have := ih (step c0 req ph ev).1 (step c0 req ph ev).2 (CacheFs.step_inv c0 req ph ev hph) hd
         rw [hc] at this ⊢
         exact this
@@ -375,13 +372,14 @@ theorem cached_equals_original (hl : ParserLaws P) (c : Cache) (req : Req) (es :
         rw [hcm]
         rcases (commit_spec c0 req.path u' (bodyOf rx') io).2 with h1 | h1 | ⟨h1, _⟩
         · exact Or.inl h1
-        · exact Or.inr (Or.inl h1)
+        · exact Or.inr (Or.inl ⟨h1, hends⟩)
         · exact Or.inr (Or.inr h1)
-  have he : e = bodyOf rx ++ trailer u := by
-    rcases key es c .start trivial hrun with h | h | h
+  have he : e = bodyOf rx ++ trailer u ∧ EndsNl (bodyOf rx) := by
+    rcases key es c .start trivial hrun with h | ⟨h, hends⟩ | h
     · rw [h, hfree] at hentry; cases hentry
-    · rw [h] at hentry; cases hentry; rfl
+    · rw [h] at hentry; cases hentry; exact ⟨rfl, hends⟩
     · rw [h] at hentry; cases hentry
+  obtain ⟨he, hnl⟩ := he
   obtain ⟨t, hs⟩ : ∃ t, P.stream rx = some (bodyOf rx, t) := by
     rcases downloaded_is_complete hl c req .start trivial es rx u hrun with h | ⟨_, h⟩
     · cases h
